@@ -93,12 +93,13 @@ def run_case(case, refs, hdr):
             outs.append(canon_dict(m.get_consensus(dove_safe=ds, **kw)))
         except BaseException as e:
             outs.append(err(e))
-    table = None
+    table = probs_cons = None
     try:
         m = Molecule()
         for i in case['orders'][0]:
             m._add_fragment(frags[i])
         d, ph, cons = m.get_consensus(dove_safe=ds, with_probs_and_obs=True, **kw)
+        probs_cons = canon_dict(d)
         if cons is None:
             table = []
         else:
@@ -106,7 +107,14 @@ def run_case(case, refs, hdr):
             assert all(float(int(x)) == float(x) for v in cons.values() for x in v)
     except BaseException as e:
         table = err(e)
-    return {'minput': minputs, 'outs': outs, 'table': table, 'fragcons': fragcons}
+    try:
+        m = Molecule()
+        for i in case['orders'][0]:
+            m._add_fragment(frags[i])
+        allow_n = canon_dict(m.get_consensus(dove_safe=ds, allow_N=True, **kw))
+    except BaseException as e:
+        allow_n = err(e)
+    return {'minput': minputs, 'outs': outs, 'table': table, 'fragcons': fragcons, 'probs_cons': probs_cons, 'allow_n': allow_n}
 
 
 def run_history(h, refs, hdr):
